@@ -24,22 +24,24 @@ C20 = 'serde carriers: property C20 (its engineer owns the stream; same naive_lo
 RULES = [
     # ---- serde
     (r'^<DateTime<Tz> as ser::Serialize>::serialize$', [], 'owner: C20_serialize_dt_never_traps', C20 + '; every well-formed value: any offset, any wall clock'),
-    (r'^<DateTime<FixedOffset> as de::Deserialize', [], 'owner-partial: C20_serde_roundtrip_dt_fixed', C20 + '; the texts the serializer writes (dtz_dom)'),
-    (r'^<DateTime<Utc> as de::Deserialize', [], 'owner-partial: C20_serde_roundtrip_dt_utc', C20 + '; the texts the serializer writes'),
-    (r'^serde::ts_\w+_option::serialize', [], 'owner-partial: C20_ts_serialize_option_spec', C20 + '; non-leap values'),
+    (r'^<DateTime<FixedOffset> as de::Deserialize', [], 'C15_serde_de_dt_fixed_total', C20 + '; every string (visit_str = FromStr); the round trip: C20_serde_roundtrip_dt_fixed'),
+    (r'^<DateTime<Utc> as de::Deserialize', [], 'C15_serde_de_dt_utc_total', C20 + '; every string; the round trip: C20_serde_roundtrip_dt_utc'),
+    (r'^serde::ts_\w+_option::serialize', [], 'C15_serde_ts_serialize_option_total', C20 + '; every well-formed value, leap seconds included; the number written: C20_ts_serialize_option_spec (non-leap)'),
     (r'^serde::ts_\w+_option::deserialize', [], 'owner: C20_ts_deserialize_option_spec', C20 + '; every i64 / u64'),
-    (r'^serde::ts_\w+::serialize', [], 'owner-partial: C20_ts_serialize_spec', C20 + '; non-leap values'),
+    (r'^serde::ts_\w+::serialize', [], 'C15_serde_ts_serialize_total', C20 + '; every well-formed value, leap seconds included; the number written: C20_ts_serialize_spec (non-leap)'),
     (r'^serde::ts_\w+::deserialize', [], 'owner: C20_ts_deserialize_spec', C20 + '; every i64 / u64'),
     (r'^<TimeDelta as Serialize>::serialize$', [], 'owner: C20_delta_roundtrip', C20),
     (r'^<TimeDelta as Deserialize', [], 'owner: C20_delta_read_spec', C20 + '; every (i64, i32) pair'),
     (r'^<NaiveDate as ser::Serialize>::serialize$', [], 'owner: C20_serde_roundtrip_date', C20 + '; every date'),
-    (r'^<NaiveDate as de::Deserialize', [], 'owner-partial: C20_serde_roundtrip_date', C20 + '; the texts the serializer writes'),
-    (r'^<NaiveTime as (ser::Serialize|de::Deserialize)', [], 'owner-partial: C20_serde_roundtrip_time', C20 + '; time_dom (a leap-second fraction on second 59 only)'),
-    (r'^<NaiveDateTime as (ser::Serialize|de::Deserialize)', [], 'owner-partial: C20_serde_roundtrip_ndt', C20 + '; ndt_dom'),
+    (r'^<NaiveDate as de::Deserialize', [], 'C15_serde_de_date_total', C20 + '; every string'),
+    (r'^<NaiveTime as ser::Serialize', [], 'C15_serde_ser_time_total', C20 + '; every value'),
+    (r'^<NaiveTime as de::Deserialize', [], 'C15_serde_de_time_total', C20 + '; every string'),
+    (r'^<NaiveDateTime as ser::Serialize', [], 'C15_serde_ser_ndt_total', C20 + '; every value'),
+    (r'^<NaiveDateTime as de::Deserialize', [], 'C15_serde_de_ndt_total', C20 + '; every string'),
     (r'^<Weekday as ser::Serialize>::serialize$', [], 'owner: C20_serde_roundtrip_weekday', C20),
-    (r'^<Weekday as de::Deserialize', [], 'owner-partial: C20_serde_roundtrip_weekday', C20 + '; the names the serializer writes'),
+    (r'^<Weekday as de::Deserialize', [], 'C15_serde_de_names_total', C20 + '; every string'),
     (r'^<Month as ser::Serialize>::serialize$', [], 'owner: C20_serde_roundtrip_month', C20),
-    (r'^<Month as de::Deserialize', [], 'owner-partial: C20_serde_roundtrip_month', C20 + '; the names the serializer writes'),
+    (r'^<Month as de::Deserialize', [], 'C15_serde_de_names_total', C20 + '; every string'),
     (r'serde::|Serialize|Deserialize', [], 'none: outside C15 stream', C20),
     # ---- DateTime
     (r'^DateTime<Tz>::timestamp_nanos_opt$', ['C02:ts.of'], 'C15_timestamp_nanos_opt_total', 'every well-formed value, leap-second fraction on any second included'),
@@ -54,32 +56,33 @@ RULES = [
     (r'^DateTime<Utc>::from_timestamp$', ['C02:ts.from', 'C02:ts.rt'], 'C15_from_timestamp_total', ''),
     (r'^DateTime<Utc>::from_timestamp_millis$', ['C02:ts.fromms'], 'C15_from_timestamp_millis_total', ''),
     (r'^DateTime<Utc>::from_timestamp_micros$', ['C02:ts.fromus'], 'C15_from_timestamp_micros_total', ''),
-    (r'^DateTime<FixedOffset>::parse_from_rfc2822$', ['C11:r2.parse'], 'none: C11_comment_total, C11_zone_scanner_total, C11_no_panic_on_grammar_partial are partial', 'C11: comment / zone scanners total; whole reader by correspondence + judge'),
+    (r'^DateTime<FixedOffset>::parse_from_rfc2822$', ['C11:r2.parse'], 'C15_parse_from_rfc2822_total', 'every string (C11_parse_never_panics); a returned value is well formed'),
     (r'^DateTime<FixedOffset>::parse_from_rfc3339$', ['C10:r3.parse'], 'C15_parse_from_rfc3339_total', ''),
-    (r'^DateTime<FixedOffset>::parse_from_str$', ['C13:fp.parse', 'C13:fp.rt'], 'none: partial -- C15_strftime_never_panics (item iterator) and C15_parse_items_total_partial (item reader); their lazy composition and the resolution step: correspondence + judge', ''),
-    (r'^DateTime<FixedOffset>::parse_and_remainder$', ['C15:c15.rem', 'C13:fp.rem'], 'none: partial -- C15_strftime_never_panics (item iterator) and C15_parse_items_total_partial (item reader); their lazy composition and the resolution step: correspondence + judge', ''),
+    (r'^DateTime<FixedOffset>::parse_from_str$', ['C13:fp.parse', 'C13:fp.rt'], 'C15_dt_parse_from_str_total', 'every format string, every input'),
+    (r'^DateTime<FixedOffset>::parse_and_remainder$', ['C15:c15.rem', 'C13:fp.rem'], 'C15_dt_parse_and_remainder_total', 'every format string, every input'),
     (r'^<DateTime<Tz> as Datelike>::with_', ['C04:z.with'], 'C15_dtz_with_date_field_total', 'every wall clock, headroom included (C04_replace_date_field)'),
     (r'^<DateTime<Tz> as Timelike>::with_', ['C04:z.with'], 'C15_dtz_with_time_field_total', ''),
     (r'^<DateTime<Tz> as fmt::(Debug|Display)>::fmt$', ['C09:tx.show'], 'C15_show_dtz_total', 'every well-formed value; C09_shape_dt states the text on its domain'),
-    (r'^<DateTime<Utc> as str::FromStr>::from_str$', ['C09:tx.parse'], 'owner-partial: C09_roundtrip_dt_utc', 'the Debug / Display texts of dtz_dom values; every well-formed string: scanning by C13_rfc3339_relaxed_never_panics, resolution step by correspondence + judge'),
-    (r'^<DateTime<FixedOffset> as str::FromStr>::from_str$', ['C09:tx.parse'], 'owner-partial: C09_roundtrip_dt_fixed', 'the Debug / Display texts of dtz_dom values; every well-formed string: scanning by C13_rfc3339_relaxed_never_panics, resolution step by correspondence + judge'),
+    (r'^<DateTime<Utc> as str::FromStr>::from_str$', ['C09:tx.parse'], 'C15_datetime_utc_from_str_total', 'every string; the text/value relation: C09_roundtrip_dt_utc on its domain'),
+    (r'^<DateTime<FixedOffset> as str::FromStr>::from_str$', ['C09:tx.parse'], 'C15_datetime_fixed_from_str_total', 'every string; the text/value relation: C09_roundtrip_dt_fixed on its domain'),
     (r'^<DateTime<Tz> as DurationRound>::', ['C17:rd.ztrunc', 'C17:rd.zround', 'C17:rd.zup'], 'C15_dtz_round_total', 'every well-formed value, leap-second fractions and headroom wall clocks included; values: C17_zoned_value (non-leap)'),
     # ---- format
-    (r'^DelayedFormat<I>::write_to$', ['C15:c15.writeto'], 'none: C12_format_spec covers the documented family; C15_strftime_never_panics covers the item iterator; formatting of arbitrary items: correspondence + judge', ''),
-    (r'^<DelayedFormat<I> as Display>::fmt$', ['C12:sf.fmt', 'C12:sf.fmtl', 'C13:fp.fmt'], 'none: C12_format_spec covers the documented family; C15_strftime_never_panics covers the item iterator; formatting of arbitrary items: correspondence + judge', ''),
+    (r'^DelayedFormat<I>::write_to$', ['C15:c15.writeto'], 'C15_delayed_format_items_total', 'every item list, every value; over StrftimeItems: C15_delayed_format_strftime_total'),
+    (r'^<DelayedFormat<I> as Display>::fmt$', ['C12:sf.fmt', 'C12:sf.fmtl', 'C13:fp.fmt'], 'C15_delayed_format_strftime_total', 'every format string, every value; fmt::Error by value; the text: C12_format_spec_family'),
     (r'^<ParseError as fmt::Display>::fmt$|^<OutOfRange as|^<ParseMonthError as|^<ParseWeekdayError as|^<RoundingError as|^<OutOfRangeError as',
-     [], 'none: outside C15 stream', 'writes a constant string; no arguments to quantify over'),
+     ['C15:c15.errtext'], 'C15_error_texts_total', 'writes a literal; every value of the type'),
     (r'^<Weekday as FromStr>::from_str$', ['C19:wd.parse', 'C09:tx.parse'], 'C15_weekday_month_from_str_total', ''),
     (r'^<Month as FromStr>::from_str$', ['C19:mo.parse', 'C09:tx.parse'], 'C15_weekday_month_from_str_total', ''),
-    (r'^parse::parse$', ['C13:fp.iparse', 'C13:fp.irt'], 'C15_parse_items_total_partial', ''),
-    (r'^parse::parse_and_remainder$', ['C15:c15.prem'], 'C15_parse_items_total_partial', ''),
+    (r'^parse::parse$', ['C13:fp.iparse', 'C13:fp.irt'], 'C15_parse_items_total', 'every item list (Fixed::RFC2822 included), every input'),
+    (r'^parse::parse_and_remainder$', ['C15:c15.prem'], 'C15_parse_items_total', 'every item list (Fixed::RFC2822 included), every input'),
     (r'^Parsed::set_', ['C14:pz.setseq', 'C14:pz.resolve'], 'C15_parsed_setters_total', ''),
     (r'^Parsed::to_naive_date$', ['C14:pz.resolve', 'C14:pz.raw'], 'C15_to_naive_date_total', ''),
     (r'^Parsed::to_naive_time$', ['C14:pz.resolve', 'C14:pz.raw'], 'C15_to_naive_time_total', ''),
     (r'^Parsed::to_naive_datetime_with_offset$', ['C14:pz.resolve', 'C14:pz.raw'], 'C15_to_naive_datetime_with_offset_total', ''),
     (r'^Parsed::to_fixed_offset$', ['C14:pz.resolve', 'C14:pz.raw'], 'owner: C14_to_fixed_offset_spec', 'every field record'),
-    (r'^Parsed::to_', ['C14:pz.resolve', 'C14:pz.raw'], 'none: partial -- goes through C15_to_naive_datetime_with_offset_total; the final zone step: correspondence + judge', ''),
-    (r'^Parsed::[a-z_0-9]+$', ['C14:pz.setseq'], 'none: field getters', 'return the stored Option field'),
+    (r'^Parsed::to_datetime$', ['C14:pz.resolve', 'C14:pz.raw'], 'C15_to_datetime_total', 'every typed field state'),
+    (r'^Parsed::to_datetime_with_timezone$', ['C14:pz.resolve', 'C14:pz.raw'], 'C15_to_datetime_with_timezone_total', 'every typed field state, every FixedOffset / Utc zone'),
+    (r'^Parsed::[a-z_0-9]+$', ['C14:pz.setseq'], 'C15_parsed_getters_valid', 'return the stored Option field (plain projection)'),
     (r"^StrftimeItems<'a>::parse$", ['C15:c15.sfparse'], 'C15_strftime_parse_total', ''),
     (r"^StrftimeItems<'a>::parse_to_owned$", ['C15:c15.sfowned'], 'C15_strftime_parse_total', ''),
     # ---- Month / Weekday / WeekdaySet
@@ -91,15 +94,15 @@ RULES = [
     (r'^<Weekday as fmt::Display>::fmt$', ['C19:wd.disp', 'C09:tx.show'], 'owner: C19_wd_display', ''),
     (r'^WeekdaySet::', ['C19:ws.single_day', 'C19:ws.first', 'C19:ws.last'], 'owner: C19_members', ''),
     (r'^<WeekdaySet as fmt::Display>::fmt$', ['C19:ws.disp'], 'owner: C19_set_display', ''),
-    (r'^<WeekdaySet as', [], 'none: outside C15 stream', 'derived-style Debug of the bit set; no op'),
+    (r'^<WeekdaySet as', ['C15:c15.wdset.dbg'], 'C15_wdset_debug_total', 'Debug of the bit set: seven binary digits'),
     # ---- NaiveDate
     (r'^NaiveDate::from_ymd_opt$', ['C01:d.ymd'], 'C15_from_ymd_opt_total', ''),
     (r'^NaiveDate::from_yo_opt$', ['C01:d.yo'], 'C15_from_yo_opt_total', ''),
     (r'^NaiveDate::from_isoywd_opt$', ['C01:d.isoywd'], 'C15_from_isoywd_opt_total', 'repaired f8bab14'),
     (r'^NaiveDate::from_num_days_from_ce_opt$', ['C01:d.days'], 'C15_from_num_days_from_ce_opt_total', ''),
     (r'^NaiveDate::from_weekday_of_month_opt$', ['C08:d8.nthwd'], 'C15_from_weekday_of_month_opt_total', ''),
-    (r'^NaiveDate::parse_from_str$', ['C13:fp.parse', 'C13:fp.rt'], 'owner-partial: C13_date_ymd_parse_from_str', 'the formatted text of every date under "%Y-%m-%d" / "%F" (formatter, lazily driven reader and field resolution); other arguments: C15_strftime_never_panics (item iterator), C15_parse_items_total_partial (item reader), C13_parse_sf_loop_is_parse_items (their lazy composition); resolution step: correspondence + judge'),
-    (r'^NaiveDate::parse_and_remainder$', ['C15:c15.rem', 'C13:fp.rem'], 'none: partial -- C15_strftime_never_panics (item iterator) and C15_parse_items_total_partial (item reader); their lazy composition and the resolution step: correspondence + judge', ''),
+    (r'^NaiveDate::parse_from_str$', ['C13:fp.parse', 'C13:fp.rt'], 'C15_date_parse_from_str_total', 'every format string, every input; the text/value relation: C13_date_ymd_parse_from_str, C13_class_date_parse_from_str ... on their domains'),
+    (r'^NaiveDate::parse_and_remainder$', ['C15:c15.rem', 'C13:fp.rem'], 'C15_date_parse_and_remainder_total', 'every format string, every input'),
     (r'^NaiveDate::checked_(add|sub)_months$', ['C08:d8.addm', 'C08:d8.subm'], 'C15_date_months_total', ''),
     (r'^NaiveDate::checked_(add|sub)_days$', ['C03:ar.dadd', 'C03:ar.dsub'], 'C15_date_days_total', ''),
     (r'^NaiveDate::and_hms(_milli|_micro|_nano)?_opt$', ['C15:c15.d.hms', 'C15:c15.d.hmsm', 'C15:c15.d.hmsu', 'C15:c15.d.hmsn'], 'C15_and_hms_total', ''),
@@ -109,11 +112,11 @@ RULES = [
     (r'^NaiveDate::years_since$', ['C08:d8.years'], 'C15_years_since_total', ''),
     (r'^<NaiveDate as Datelike>::with_', ['C08:d8.with'], 'C15_date_with_total', ''),
     (r'^<NaiveDate as fmt::', ['C09:tx.show'], 'C15_show_date_total', 'every date; the text: C09_shape_date'),
-    (r'^<NaiveDate as str::FromStr>::from_str$', ['C09:tx.parse'], 'owner-partial: C09_roundtrip_date', 'the Debug / Display text of every date; every well-formed string: C15_parse_items_total_partial (fixed item list), resolution by C15_to_naive_date_total; composition: correspondence + judge'),
-    (r'^<IsoWeek as fmt::Debug>::fmt$', [], 'none: outside C15 stream', 'Debug of IsoWeek: two integers through write!; no op'),
+    (r'^<NaiveDate as str::FromStr>::from_str$', ['C09:tx.parse'], 'C15_naive_date_from_str_total', 'every string; the text/value relation: C09_roundtrip_date'),
+    (r'^<IsoWeek as fmt::Debug>::fmt$', ['C15:c15.isoweek.dbg'], 'C15_isoweek_debug_total', 'Debug of IsoWeek: two integers through write!'),
     # ---- NaiveDateTime
-    (r'^NaiveDateTime::parse_from_str$', ['C13:fp.parse', 'C13:fp.rt'], 'none: partial -- C15_strftime_never_panics (item iterator) and C15_parse_items_total_partial (item reader); their lazy composition and the resolution step: correspondence + judge', ''),
-    (r'^NaiveDateTime::parse_and_remainder$', ['C15:c15.rem', 'C13:fp.rem'], 'none: partial -- C15_strftime_never_panics (item iterator) and C15_parse_items_total_partial (item reader); their lazy composition and the resolution step: correspondence + judge', ''),
+    (r'^NaiveDateTime::parse_from_str$', ['C13:fp.parse', 'C13:fp.rt'], 'C15_ndt_parse_from_str_total', 'every format string, every input'),
+    (r'^NaiveDateTime::parse_and_remainder$', ['C15:c15.rem', 'C13:fp.rem'], 'C15_ndt_parse_and_remainder_total', 'every format string, every input'),
     (r'^NaiveDateTime::checked_(add|sub)_signed$', ['C03:ar.nadd', 'C03:ar.nsub', 'C07:ndt.add', 'C07:ndt.sub'], 'C15_ndt_signed_total', 'leap-second operands included (C07_ndt_leap_add / _sub)'),
     (r'^NaiveDateTime::checked_(add|sub)_months$', ['C08:d8.ndt.addm', 'C08:d8.ndt.subm'], 'C15_ndt_months_total', ''),
     (r'^NaiveDateTime::checked_(add|sub)_offset$', ['C15:c15.ndt.addoff', 'C15:c15.ndt.suboff', 'C07:t.addoffd'], 'C15_ndt_offset_total', ''),
@@ -122,24 +125,24 @@ RULES = [
     (r'^<NaiveDateTime as Datelike>::with_', ['C08:d8.ndt.with'], 'owner: C08_ndt_with', ''),
     (r'^<NaiveDateTime as Timelike>::with_', ['C15:c15.ndt.witht'], 'C15_ndt_with_time_total', ''),
     (r'^<NaiveDateTime as fmt::', ['C09:tx.show'], 'C15_show_ndt_total', 'every value; the text: C09_shape_ndt'),
-    (r'^<NaiveDateTime as str::FromStr>::from_str$', ['C09:tx.parse'], 'owner-partial: C09_roundtrip_ndt_debug', 'the Debug text of ndt_dom values; every well-formed string: C15_parse_items_total_partial (fixed item list), resolution by C15_to_naive_datetime_with_offset_total; composition: correspondence + judge'),
+    (r'^<NaiveDateTime as str::FromStr>::from_str$', ['C09:tx.parse'], 'C15_naive_datetime_from_str_total', 'every string; the text/value relation: C09_roundtrip_ndt_debug on its domain'),
     (r'^<NaiveDateTime as DurationRound>::', ['C17:rd.trunc', 'C17:rd.round', 'C17:rd.up'], 'C15_ndt_round_total', 'every well-formed value, leap-second fractions included; values: C17_naive_value (non-leap)'),
     (r'^NaiveWeek::checked_', ['C08:d8.wfirst', 'C08:d8.wlast', 'C08:d8.week'], 'C15_week_total', ''),
     # ---- NaiveTime
     (r'^NaiveTime::from_hms', ['C07:t.hms', 'C07:t.hms_milli', 'C07:t.hms_micro', 'C07:t.hms_nano'], 'C15_time_ctor_total', ''),
     (r'^NaiveTime::from_num_seconds_from_midnight_opt$', ['C07:t.nsfm'], 'owner: C07_ctor_accept_iff_secs', 'no trapping operation in the model (returns option directly)'),
-    (r'^NaiveTime::parse_from_str$', ['C13:fp.parse', 'C13:fp.rt'], 'owner-partial: C13_time_hms_parse_from_str', 'the formatted text of every time of day under "%H:%M:%S" / "%T" / "%X" (formatter, lazily driven reader and field resolution); other arguments: C15_strftime_never_panics, C15_parse_items_total_partial, C13_parse_sf_loop_is_parse_items; resolution: C15_to_naive_time_total; composition: correspondence + judge'),
-    (r'^NaiveTime::parse_and_remainder$', ['C15:c15.rem', 'C13:fp.rem'], 'none: partial -- C15_strftime_never_panics (item iterator) and C15_parse_items_total_partial (item reader); their lazy composition and the resolution step: correspondence + judge', ''),
+    (r'^NaiveTime::parse_from_str$', ['C13:fp.parse', 'C13:fp.rt'], 'C15_time_parse_from_str_total', 'every format string, every input; the text/value relation: C13_time_hms_parse_from_str, C13_class_time_parse_from_str ... on their domains'),
+    (r'^NaiveTime::parse_and_remainder$', ['C15:c15.rem', 'C13:fp.rem'], 'C15_time_parse_and_remainder_total', 'every format string, every input'),
     (r'^<NaiveTime as Timelike>::with_', ['C07:t.with_hour', 'C07:t.with_minute', 'C07:t.with_second', 'C07:t.with_nano'], 'owner: C07_replace_exact_hour', ''),
     (r'^<NaiveTime as fmt::', ['C09:tx.show'], 'C15_show_time_total', 'every value; the text: C09_shape_time'),
-    (r'^<NaiveTime as str::FromStr>::from_str$', ['C09:tx.parse'], 'owner-partial: C09_roundtrip_time', 'the Debug / Display text of time_dom values; every well-formed string: C15_parse_items_total_partial (fixed item lists), resolution by C15_to_naive_time_total; composition: correspondence + judge'),
+    (r'^<NaiveTime as str::FromStr>::from_str$', ['C09:tx.parse'], 'C15_naive_time_from_str_total', 'every string; the text/value relation: C09_roundtrip_time on its domain'),
     # ---- offsets / zones
     (r'^FixedOffset::(east|west)_opt$', ['C04:z.east', 'C04:z.west'], 'C15_fixed_offset_ctor_total', ''),
-    (r'^<FixedOffset as FromStr>::from_str$', ['C09:tx.parse'], 'owner-partial: C09_roundtrip_fixed_offset', 'the Debug / Display text of whole-minute offsets; every well-formed string: C13_timezone_offset_never_panics (scanner); composition: correspondence + judge'),
-    (r'^<(FixedOffset|Utc) as TimeZone>::offset_from_local', ['C15:c15.offlocal'], 'none: constant (returns Single(self)); no trapping step in the model', 'returns Single(self)'),
+    (r'^<FixedOffset as FromStr>::from_str$', ['C09:tx.parse'], 'C15_fixed_offset_from_str_total', 'every string; the text/value relation: C09_roundtrip_fixed_offset (whole minutes)'),
+    (r'^<(FixedOffset|Utc) as TimeZone>::offset_from_local', ['C15:c15.offlocal'], 'C15_offset_from_local_total', 'returns Single(self)'),
     (r'^<FixedOffset as fmt::', ['C09:tx.show'], 'C15_show_fixed_offset_total', 'every offset, seconds included; the text: C09_shape_fixed_offset (whole minutes)'),
     (r'^<Utc as fmt::', ['C09:tx.show'], 'C15_show_utc_total', 'constant text'),
-    (r'^MappedLocalTime<T>::', ['C15:c15.mlt'], 'none: pattern match only; no trapping step in the model', 'pattern match only'),
+    (r'^MappedLocalTime<T>::', ['C15:c15.mlt'], 'C15_mlt_selectors', 'pattern match only'),
     (r'^TimeZone::with_ymd_and_hms$', ['C04:z.ymdhms'], 'C15_with_ymd_and_hms_total', ''),
     (r'^TimeZone::timestamp_opt$', ['C02:ts.tz'], 'C15_tz_timestamp_total', ''),
     (r'^TimeZone::timestamp_millis_opt$', ['C02:ts.tzms'], 'C15_tz_timestamp_total', ''),
